@@ -2456,4 +2456,17 @@ def snapshot(root):
     if moved:
         # outputs that were moved to another volume by hand (a symbolic link took their place)
         snap["relocated"] = moved
+        # which of the symbolic links in (or behind) cond-out do not resolve - judged physically, the way a reader
+        # of the outputs meets them
+        co = str(root / "cond-out")
+        dang = set()
+        for r_, v_ in snap["tree"].items():
+            if v_[0] == "l" and not os.path.exists(os.path.join(co, r_)):
+                dang.add(r_)
+        for r_, sub in moved.items():
+            base = snap["tree"][r_][1]
+            for q_, v_ in sub.items():
+                if v_[0] == "l" and not os.path.exists(os.path.join(base, q_)):
+                    dang.add(r_ + "/" + q_)
+        snap["dangling"] = sorted(dang)
     return snap
